@@ -11,7 +11,7 @@ from .. import estimators as E, gen, observe
 RULE = ('generated training sets x relation: TRANSLATION (all 17; data and translation on the dyadic grid 2^-6 so that every '
         'difference is exact), within-pair SWAP at drawn positions (ITML, MMC, SDML; both pairs of a quadruplet for LSML), sample '
         'PERMUTATION (Covariance, RCA), orthogonal map Q = product of drawn Givens rotations and a reflection (Covariance, RCA, '
-        'LFDA, LMNN identity init, ITML / LSML / MMC with identity or covariance prior/init), SCALING by 2^j (Covariance, RCA).  '
+        'LFDA, LMNN identity init, ITML / LSML / MMC with identity or covariance prior/init), SCALING by 2^j, |j| <= 4 or j in +-{12,20,30,40} (Covariance, RCA).  '
         'Two fits (original, transformed) are compared through learned distances on query pairs and their images.  '
         'Non-trivial = the transformation is not the identity (translation longer than the data diameter, >= 1 swapped pair, '
         'Q not a permutation, j != 0) and the model is not the prior; distinct by canonical case.')
@@ -53,7 +53,7 @@ def case_strategy(draw, name):
   return dict(model=m, rel=rel, tseed=draw(st.integers(0, 10 ** 6)),
               tvec=[draw(st.integers(-2048, 2048)) for _ in range(d)],
               angles=[draw(st.floats(-3.1, 3.1, allow_nan=False)) for _ in range(max(1, d * (d - 1) // 2))],
-              reflect=draw(st.booleans()), j=draw(st.integers(-4, 4)), swapfrac=draw(st.floats(0.1, 1.0, allow_nan=False)),
+              reflect=draw(st.booleans()), j=draw(st.one_of(st.integers(-4, 4), st.sampled_from([-40, -30, -20, -12, 12, 20, 30, 40]))), swapfrac=draw(st.floats(0.1, 1.0, allow_nan=False)),
               far=draw(st.booleans()))
 
 
